@@ -360,7 +360,11 @@ def _oracle(case, res):
         if not ct.startswith(want.split("-")[0][:4].rstrip("-")) and not ct.startswith(want):
             out.append(("axes", "CTYPE%d = %r for physical type %r (expected %r...)" % (i + 1, ct, w.world_axis_physical_types[i], want)))
         cu = c.get("CUNIT%d" % (i + 1), "")
-        if u.Unit(cu or "") != u.Unit(w.world_axis_units[i] or ""):
+        try:
+            same_unit = u.Unit(cu or "", format="fits") == u.Unit(w.world_axis_units[i] or "")
+        except ValueError:
+            same_unit = False        # not a FITS unit string at all (FITS units are case sensitive: 'UM', 'HZ', 'DEG' are not units)
+        if not same_unit:
             out.append(("axes", "CUNIT%d = %r for unit %r" % (i + 1, cu, w.world_axis_units[i])))
     if any(k.startswith("CTYPE") and int(k[5:]) > nw for k in c):
         out.append(("axes", "more CTYPE cards than world axes: %s" % sorted(k for k in c if k.startswith("CTYPE"))))
